@@ -21,6 +21,8 @@ def scenario_for(seed, index, tier):
     rng = make_rng('scenario', ID, seed, index)
     if rng.random() < 0.3:
         return wrapper_scenario(rng)
+    if rng.random() < 0.2:
+        return dual_scenario(rng)
     sup = common.supported()
     proto = common.pick_proto(rng, sup)
     ids = ids_for(proto)
@@ -73,6 +75,34 @@ def scenario_for(seed, index, tier):
     }
 
 
+def dual_scenario(rng):
+    """Two Connection objects in one process, each with its own encrypted
+    session, writing concurrently: the two cipher streams must not
+    influence each other."""
+    sup = common.supported()
+    proto = common.pick_proto(rng, sup)
+    writes = {}
+    for name in ('A', 'B'):
+        w_ = []
+        for i in range(rng.randint(2, 10)):
+            n = rng.choice([0, 1, 15, 16, 17, 33, 500, 3000, 5000])
+            w_.append([rng.choice(['q', 'f']), 'w:%s' % name, bytes(
+                (i * 31 + j * 5 + ord(name)) & 0xFF
+                for j in range(n)).hex()])
+        writes[name] = w_
+    conn = {'login': [['encrypt', {'bits': 1024, 'token_hex': 'aabbccdd',
+                                   'server_id': '-'}], ['success']],
+            'play': []}
+    return {
+        'kind': 'dual', 'proto': proto, 'writes': writes,
+        'server': {'conns': [conn, copy.deepcopy(conn)]},
+        'net': {'latency_us': rng.choice([50, 500])},
+        'sched': {'granularity': rng.choice(['io', 'io', 'line']),
+                  'max_steps': 600000},
+        'rand_seed': rng.randrange(2**32),
+    }
+
+
 def wrapper_scenario(rng):
     secret = bytes(rng.randrange(256) for _ in range(16))
     n_in = rng.choice([0, 1, 16, 17, 200, 3000])
@@ -104,15 +134,120 @@ def wrapper_scenario(rng):
 
 
 def policy(rng, scenario):
+    if scenario.get('kind') == 'dual':
+        return Policy(p_sched=rng.choice([0.02, 0.1, 0.3, 0.5]),
+                      p_event=rng.choice([0, 0.1, 0.3]), name='dual')
     return Policy(p_sched=rng.choice([0, 0.01, 0.1]),
                   p_event=rng.choice([0, 0.1, 0.3]),
                   p_short=rng.choice([0.1, 0.7]),
                   p_seg=rng.choice([0.1, 0.7]), name='c18')
 
 
+def execute_dual(scenario, tape):
+    w = World(scenario, tape)
+    st = {'errs': [], 'in_play': {'A': False, 'B': False}, 'done': 0}
+    ids = ids_for(scenario['proto'])
+
+    def build(w):
+        from minecraft.networking.connection import Connection
+        from minecraft.networking.packets import clientbound, serverbound
+
+        def make(name):
+            conn = Connection('sim.example', 25565, username='crypt' + name,
+                              allowed_versions=[scenario['proto']],
+                              handle_exception=lambda e, i: (
+                                  st['errs'] if not st.get('closing' + name)
+                                  else []).append((name, e)))
+            conn.register_packet_listener(
+                lambda p: st['in_play'].__setitem__(name, True),
+                clientbound.login.LoginSuccessPacket)
+
+            def user():
+                r = w.api('connect' + name, conn.connect)
+                if not r.ok:
+                    st['errs'].append((name, r.exc))
+                    return
+                w.wait_until(lambda: all(st['in_play'].values()) or
+                             st['errs'], 30000000)
+                for mode, ch, hx in scenario['writes'][name]:
+                    if st['errs']:
+                        break
+                    w.api('write' + name, conn.write_packet,
+                          serverbound.play.PluginMessagePacket(
+                              channel=ch, data=bytes.fromhex(hx)),
+                          force=(mode == 'f'))
+
+                def mine():
+                    for a in w.server.apps:
+                        if a.login_name == 'crypt' + name:
+                            return a
+                    return None
+                w.wait_until(lambda: st['errs'] or (
+                    mine() is not None and mine().play_frames >=
+                    len(scenario['writes'][name])), 60000000)
+                st['closing' + name] = True
+                w.api('disconnect' + name, conn.disconnect)
+            w.sim.spawn(user, 'user' + name)
+        make('A')
+        make('B')
+
+    w.run(build)
+    res = common.result_from_world(w)
+    V = res.violations
+    res.summary = {'kind': 'dual', 'proto': scenario['proto'],
+                   'writes': {k: [(m, len(h) // 2) for m, _c, h in v]
+                              for k, v in scenario['writes'].items()},
+                   'end': w.sim.end_state}
+    res.nontrivial = True
+    res.state_sigs = [('dual', min(w.sim.switches, 30))]
+    res.obligations += 2
+    if w.sim.end_state != 'done':
+        V.append(('C18/dual:%s' % w.sim.end_state, repr(w.sim.end_detail)))
+        return res
+    if st['errs']:
+        V.append(('C18/dual-client-error:%s'
+                  % type(st['errs'][0][1]).__name__,
+                  str(st['errs'][0])[:160]))
+        return res
+    for name in ('A', 'B'):
+        app = next((a for a in w.server.apps
+                    if a.login_name == 'crypt' + name), None)
+        res.obligations += 3
+        if app is None or not app.enc or app.enc.get('secret') is None:
+            V.append(('C18/dual-secret-not-recovered', name))
+            return res
+        want = [(ids['sb.play.plugin'],
+                 wire.string(ch) + bytes.fromhex(hx))
+                for _m, ch, hx in scenario['writes'][name]]
+        got = [(pid, bytes(body)) for _s, stt, pid, body, _m in app.frames
+               if stt in ('play', 'paused')]
+        if app.errors or sorted(got) != sorted(want):
+            V.append(('C18/dual-stream-corrupted',
+                      {'connection': name, 'server_errors': app.errors[:2],
+                       'n_got': len(got), 'n_want': len(want)}))
+            return res
+        # one continuous CFB8 stream under this connection's own secret
+        start = app.enc['cipher_start']
+        wire_ct = bytes(app.conn.c2s_bytes[start:])
+        pt = b''.join(wire.varint(len(wire.varint(pid) + body)) +
+                      wire.varint(pid) + body for pid, body in got)
+        exp_ct = wire.CFB8(app.enc['secret'],
+                           app.enc['secret']).update(pt)
+        if wire_ct != exp_ct:
+            V.append(('C18/dual-ciphertext-not-cfb8-of-plaintext', name))
+            return res
+    secrets = [a.enc['secret'] for a in w.server.apps if a.enc]
+    if len(set(secrets)) != len(secrets):
+        V.append(('C18/secret-shared-between-connections', None))
+    res.probes['two-connections-concurrently'] = 1
+    return res
+
+
 def execute(scenario, tape):
     if scenario['kind'] == 'wrapper':
         return execute_wrapper(scenario, tape)
+    if scenario['kind'] == 'dual':
+        return execute_dual(scenario, tape)
     w = World(scenario, tape)
     st = {'errs': [], 'logs': [[] for _ in range(scenario['logins'])],
           'login_no': -1, 'in_play': False}
@@ -372,6 +507,14 @@ def execute_wrapper(scenario, tape):
 
 
 def shrink_scenario(sc):
+    if sc['kind'] == 'dual':
+        for name in ('A', 'B'):
+            for j in range(len(sc['writes'][name])):
+                if len(sc['writes'][name]) > 1:
+                    c = copy.deepcopy(sc)
+                    del c['writes'][name][j]
+                    yield c
+        return
     if sc['kind'] == 'wrapper':
         for j in range(len(sc['ops'])):
             if sc['ops'][j][0] == 'send':
